@@ -52,7 +52,26 @@ def run(ck, facts):
             if scr is not None and any((x.get("k") == "field" and x.get("n") == "param_self") or (x.get("k") == "local" and x.get("n") in ("self_type", "self_param", "param_self")) for x in C.walk(scr)):
                 self_visit += [v for v in visits if any(v is x for x in C.walk(n)) and v not in self_visit]
         # param visit inside a loop over method.params
-        loops = [n for n in C.walk(body) if (n.get("k") == "for" and any(x.get("k") == "field" and x.get("n") == "params" for x in C.walk(n["iter"])))]
+        fdefs = flow.defs_of(f)
+        KEEP_ALL = {"iter", "collect", "clone", "to_vec", "into_iter", "sort", "sort_by", "sort_by_key", "sort_unstable", "sort_unstable_by_key", "rev", "copied", "cloned",
+                    "as_slice", "iter_mut", "enumerate", "peekable", "by_ref", "to_owned", "as_ref", "deref"}
+
+        def all_params(e, depth=0):
+            """does expression e denote ALL of method.params (possibly copied / reordered, never filtered)?"""
+            e = C.strip(e)
+            if not isinstance(e, dict) or depth > 8:
+                return False
+            if e.get("k") == "field" and e.get("n") == "params":
+                return True
+            if e.get("k") == "mcall":
+                return e.get("m") in KEEP_ALL and all_params(e["recv"], depth + 1)
+            if e.get("k") == "local":
+                d = fdefs.get(e.get("id"))
+                return bool(d) and d[0] == "expr" and all_params(d[1], depth + 1)
+            if e.get("k") in ("addr", "deref", "paren"):
+                return all_params(list(C.children(e))[0], depth + 1)
+            return False
+        loops = [n for n in C.walk(body) if n.get("k") == "for" and (any(x.get("k") == "field" and x.get("n") == "params" for x in C.walk(n["iter"])) or all_params(n["iter"]))]
         maps = [n for n in C.walk(body) if n.get("k") == "mcall" and n.get("m") in ("map", "for_each", "extend") and any(x.get("k") == "field" and x.get("n") == "params" for x in C.walk(n["recv"] if n.get("m") != "extend" else n["a"][0]))]
         in_loop = []
         uncond = False
